@@ -15,6 +15,7 @@ from .. import core
 from .. import structworld as W
 from .. import struct_props as S
 from ..mechworld import MechCorr
+from .. import struct_api_gen as api
 from ..impl import mx, close_all, quiet
 
 CFG = {
@@ -73,13 +74,17 @@ def declared_bases(ops, upto, results):
         elif op[0] == "remove_bases":
             if decl.get(op[1]) is not None:
                 decl[op[1]] = [b for b in decl.get(op[1], []) if b not in op[2]]
-        elif op[0] == "del_space":
+        elif op[0] in ("del_space", "del_mref", "del_ref"):
+            # `del model.name` / `del space.name` delete the space of that name, if there is one
+            gone = op[1] if op[0] != "del_ref" else "%s.%s" % (op[1], op[2])
+            if op[0] != "del_space" and gone not in decl:
+                continue
             for p in list(decl):
-                if p == op[1] or p.startswith(op[1] + "."):
+                if p == gone or p.startswith(gone + "."):
                     del decl[p]
             for p in decl:
                 if decl[p] is not None:
-                    decl[p] = [b for b in decl[p] if not (b == op[1] or b.startswith(op[1] + "."))]
+                    decl[p] = [b for b in decl[p] if not (b == gone or b.startswith(gone + "."))]
     return decl
 
 
@@ -241,8 +246,10 @@ def run_history(ops, out, stats, check_values=True, rng=None, n_ops=0, gen=None)
                 break
             if op[0] in ("eval", "set_value", "clear", "clear_all", "clear_at"):
                 continue
+            n_fail = len(out.failures)
             ok, nt = S.observe(out, lambda: S.hist_json(ops, k - 1), "after %s (%s)" % (op[0], r.split(" ")[0]),
                                check_state, live, ops, k - 1, out, stats, results)
+            api.assign_keys(out, n_fail, live, op, r)
             if not ok:
                 broken = True
                 break
@@ -302,6 +309,7 @@ def run(ctx, out):
                 values_vs_rebuilt(live, ops, len(ops) - 1, out2, stats)
             self.mech.finish(out2, lambda kk: S.hist_json(ops, kk), stats)
     S.enumerate_edits(ctx, out, "C03", _H, CFG, stats)
+    api.run_c03(ctx, out, stats, run_history)
     out.coverage.update({"evaluations": len(cases) + stats["enumerated_scenarios"], "programs": len(seen),
                          "distinct_nontrivial": nontrivial,
                          "rule": RULE + "; plus name-clash histories (struct_props.gen_clash: one alphabet of four names "
